@@ -972,6 +972,13 @@ class FDE:
                     base.stack.append(SimpleCM('callback', (fn, a, k)))
                     return fn
                 return _opfn(callback)
+            if attr == 'pop_all':
+                def pop_all():
+                    moved = SimpleCM('ExitStack', None)
+                    moved.stack = list(base.stack)       # the registered exits move to a new stack: this one will not run them
+                    del base.stack[:]
+                    return moved
+                return _opfn(pop_all)
             raise Unsupported('attribute %s of an ExitStack' % attr)
         if isinstance(base, NodeInt):
             if attr == 'ayns':
@@ -1367,6 +1374,12 @@ class FDE:
                 t = self.repo.resolve(b.cls, '__getitem__') if b.cls in self.repo.classes else None
                 if t is not None or '__getitem__' in self.stubs:
                     return self._apply(Bound(b, t, '__getitem__', False), [k], {}, e)
+            import re as _re
+            if isinstance(b, _re.Match) and isinstance(k, (int, str)):
+                try:
+                    return b[k]         # match[n] is match.group(n)
+                except IndexError:
+                    raise Raised('IndexError')
             raise Unsupported('subscript of %r' % (b,))
         if isinstance(e, (ast.GeneratorExp, ast.ListComp)) and len(e.generators) == 1 and not e.generators[0].is_async:
             gen = e.generators[0]
